@@ -1,8 +1,8 @@
 use poulpy_hal::{
     api::{
         ScratchAvailable, ScratchTakeBasic, VecZnxAutomorphismAssign, VecZnxAutomorphismAssignTmpBytes, VecZnxBigAddSmallAssign,
-        VecZnxBigAutomorphismAssign, VecZnxBigAutomorphismAssignTmpBytes, VecZnxBigNormalize, VecZnxBigSubSmallAssign,
-        VecZnxBigSubSmallNegateAssign, VecZnxNormalize,
+        VecZnxBigAutomorphismAssign, VecZnxBigAutomorphismAssignTmpBytes, VecZnxBigNormalize, VecZnxBigNormalizeTmpBytes,
+        VecZnxBigSubSmallAssign, VecZnxBigSubSmallNegateAssign, VecZnxDftBytesOf, VecZnxNormalize,
     },
     layouts::{Backend, Module, Scratch, VecZnxBig},
 };
@@ -26,6 +26,8 @@ pub(crate) trait GLWEAutomorphismDefault<BE: Backend>:
     + VecZnxBigSubSmallNegateAssign<BE>
     + VecZnxBigAddSmallAssign<BE>
     + VecZnxBigNormalize<BE>
+    + VecZnxBigNormalizeTmpBytes
+    + VecZnxDftBytesOf
     + GLWENormalize<BE>
 where
     Scratch<BE>: ScratchTakeCore<BE>,
@@ -45,7 +47,33 @@ where
             .vec_znx_automorphism_assign_tmp_bytes()
             .max(self.vec_znx_big_automorphism_assign_tmp_bytes());
 
-        lvl_0.max(lvl_1)
+        // The fused forms (`glwe_automorphism_{add,sub,sub_negate}[_assign]`) keep the accumulator and the
+        // radix-converted input alive while they apply the automorphism and normalise.
+        let res_dft: usize = self.bytes_of_vec_znx_dft(res_infos.rank().as_usize() + 1, key_infos.size());
+        let lvl_2_tail: usize = self
+            .vec_znx_big_automorphism_assign_tmp_bytes()
+            .max(self.vec_znx_big_normalize_tmp_bytes());
+        let lvl_2: usize = if a_infos.base2k() != key_infos.base2k() {
+            let a_conv_infos: GLWELayout = GLWELayout {
+                n: a_infos.n(),
+                base2k: key_infos.base2k(),
+                k: a_infos.max_k(),
+                rank: a_infos.rank(),
+            };
+            res_dft
+                + GLWE::<Vec<u8>>::bytes_of_from_infos(&a_conv_infos)
+                + self
+                    .glwe_normalize_tmp_bytes()
+                    .max(self.glwe_keyswitch_internal_tmp_bytes(key_infos, &a_conv_infos, key_infos))
+                    .max(lvl_2_tail)
+        } else {
+            res_dft
+                + self
+                    .glwe_keyswitch_internal_tmp_bytes(key_infos, a_infos, key_infos)
+                    .max(lvl_2_tail)
+        };
+
+        lvl_0.max(lvl_1).max(lvl_2)
     }
 
     fn glwe_automorphism_default<R, A, K>(&self, res: &mut R, a: &A, key: &K, scratch: &mut Scratch<BE>)
@@ -375,6 +403,8 @@ where
         + VecZnxBigSubSmallNegateAssign<BE>
         + VecZnxBigAddSmallAssign<BE>
         + VecZnxBigNormalize<BE>
+        + VecZnxBigNormalizeTmpBytes
+        + VecZnxDftBytesOf
         + GLWENormalize<BE>,
     Scratch<BE>: ScratchTakeCore<BE>,
 {
